@@ -5,7 +5,7 @@ C17 — concurrent API calls behave like sequential ones.
 Calls are lists of accesses to process-wide variables (recorded from the real engine, translated on every
 run).  `disciplined` is the decidable discipline: every variable is (A) never written, or (B) accessed only
 inside regions of one common lock in which the call writes before it reads, or (C) written with one and the
-same value by everybody and read only after an own write.
+same value by everybody and read only after an own write, or (D) never read by anybody.
 -/
 namespace VtlModel.C17
 open VtlModel.Interleave
@@ -57,7 +57,7 @@ theorem undisciplined_counter :
 (non-vacuity of the hypothesis, kind B), and so is a pair of calls writing the same value (kind C). -/
 theorem disciplined_examples :
     disciplined [[.acq 7, .write 0 1, .read 0, .rel 7], [.acq 7, .write 0 2, .rel 7]] = true ∧
-    disciplined [[.write 3 5, .read 3], [.write 3 5], [.read 9]] = true := by
+    disciplined [[.write 3 5, .read 3], [.write 3 5], [.read 9], [.write 4 1], [.write 4 2]] = true := by
   decide
 
 /-- The lock region must span the dependent read: releasing between write and read is not disciplined, and
